@@ -90,7 +90,9 @@ func DeserializeEncrypted(data, authKey []byte) (*Encrypted, error) {
 	msg.SeqNo = d.PopInt()
 	messageLen := d.PopInt()
 
-	if len(decrypted) < int(messageLen)-(tl.LongLen+tl.LongLen+tl.LongLen+tl.WordLen+tl.WordLen) {
+	// salt, session id, msg id, seq no and message length are going before the message itself
+	const headerLen = tl.LongLen + tl.LongLen + tl.LongLen + tl.WordLen + tl.WordLen
+	if messageLen < 0 || len(decrypted)-headerLen < int(messageLen) {
 		return nil, fmt.Errorf("message is smaller than it's defining: have %v, but messageLen is %v", len(decrypted), messageLen)
 	}
 
